@@ -428,7 +428,7 @@ SUBS = [
     Sub("boundary", _pool_b, _strategy_b, _run_b, _nontrivial_b, _labels_b,
         examples={"quick": 60, "thorough": 300}, shards={"quick": 8, "thorough": 16}, rule="warm caches or R*D>=2"),
     Sub("chains", _pool_named(_TERMINALS), _strategy_chain, _run_p, _nontrivial_p, _labels_p,
-        examples={"quick": 6, "thorough": 50}, shards={"quick": 15, "thorough": 30}, rule=">=2 ops and non-zero finite-difference response"),
+        examples={"quick": 6, "thorough": 16}, shards={"quick": 15, "thorough": 30}, rule=">=2 ops and non-zero finite-difference response"),
     Sub("cond_pipes", _pool_named(_PIPES), _strategy_cond, _run_p, _nontrivial_p, _labels_p,
-        examples={"quick": 5, "thorough": 40}, shards={"quick": 20, "thorough": 40}, rule="non-zero finite-difference response"),
+        examples={"quick": 5, "thorough": 12}, shards={"quick": 20, "thorough": 40}, rule="non-zero finite-difference response"),
 ]
